@@ -5,7 +5,7 @@ import random
 
 from vlib import hist
 from vlib.ctx import proof_gate
-from vlib.term import C, Nat, opt
+from vlib.term import C, Nat, Some, opt
 
 HEADER = "From Coq Require Import ZArith List.\nFrom TV Require Import Common.Harness C13.Model C13.Law C13.Corr."
 CASE_T = "C13.Corr.case"
@@ -23,7 +23,8 @@ ALL_NAMES = NAMES + DUNDERS
 EXPLICIT = [n for n in NAMES if not n.endswith("_") and len(n) <= 3]
 PREFIXES = ["", "_", "a", "b", "ab", "_a", "a_", "__", "aa", "abb", "_ab", "a_b", "ba"]
 POLS = [["Python"], ["Any", 5], ["Any", 200], ["Disallow"], ["ReadOnly"], ["Constant", 3], ["Constant", 104],
-        ["Event"], ["Typed", "VInt", 7], ["Typed", "VStr", 102], ["Typed", "VCInt", 8]]
+        ["Event"], ["Typed", "VInt", 7], ["Typed", "VStr", 102], ["Typed", "VCInt", 8], ["ReadOnly"], ["Event"],
+        ["ReadOnly", 9], ["Event", "VInt"]]
 VALUES = [0, 1, 5, 6, 3, 101, 104, 104, 200, 201]
 
 
@@ -34,8 +35,12 @@ def name_term(n):
 
 def pol_term(p):
     k = p[0]
-    if k in ("Python", "Disallow", "ReadOnly", "Event"):
+    if k in ("Python", "Disallow"):
         return C("P" + k)
+    if k == "ReadOnly":
+        return C("PReadOnly", 201 if len(p) == 1 else p[1])
+    if k == "Event":
+        return C("PEvent", None if len(p) == 1 else Some(C(p[1])))
     if k in ("Any", "Constant"):
         return C("P" + k, p[1])
     return C("PTyped", C(p[1]), p[2])
@@ -51,6 +56,11 @@ def out_term(o):
 
 def is_early(op):
     return op[-1] == "E"
+
+
+def who(op):
+    """Which object an operation acts on: "E" early instance, "B" second main instance, "" first main instance."""
+    return op[-1] if op[-1] in ("E", "B") else ""
 
 
 def op_term(op):
@@ -72,15 +82,16 @@ def to_term(case, obs):
     nlate = case.get("nlate", 0)
     h = [(op_term(op), C("mkObs", out_term(ob["out"]), opt(ob["stored"]))) for op, ob in zip(case["ops"], obs)]
     ne = sum(1 for op in case["ops"] if is_early(op))
+    main = [(op[-1] == "B", t[0], t[1]) for op, t in zip(case["ops"][ne:], h[ne:])]
     return (classes[:len(classes) - nlate], Nat(case.get("precls", case["cls"])), h[:ne],
-            classes[len(classes) - nlate:], Nat(case["cls"]), h[ne:], [Nat(k) for k in obs[0]["mro"]])
+            classes[len(classes) - nlate:], Nat(case["cls"]), main, [Nat(k) for k in obs[0]["mro"]])
 
 
 # ----- failure signatures ----------------------------------------------------
 def live_instance_trait(case, step, name):
     pol = None
     for op in case["ops"][:step]:
-        if op[1] != name or is_early(op) != is_early(case["ops"][step]):
+        if op[1] != name or who(op) != who(case["ops"][step]):
             continue
         if op[0] == "Add":
             pol = op[2]
@@ -91,7 +102,7 @@ def live_instance_trait(case, step, name):
 
 def stored_before(case, obs, step, name):
     for j in range(step - 1, -1, -1):
-        if case["ops"][j][1] == name and is_early(case["ops"][j]) == is_early(case["ops"][step]):
+        if case["ops"][j][1] == name and who(case["ops"][j]) == who(case["ops"][step]):
             return obs[j]["stored"]
     return None
 
@@ -315,6 +326,16 @@ def staged_history(h, rnd, ctx, maxlen):
     return dict(h, ops=ops, nlate=nlate, precls=precls, kind=kind)
 
 
+def two_instance_history(h, rnd, ctx, maxlen):
+    """Operations interleaved on two instances of one class: shared cache, separate traits and values."""
+    names = focus_names(h, rnd)
+    ops = []
+    for _ in range(rnd.randint(4, maxlen)):
+        op = random_op(rnd, ctx, names)
+        ops.append(op + ["B"] if rnd.random() < 0.5 else op)
+    return dict(h, ops=ops, kind="two-instances")
+
+
 def corpus():
     """Triggers of the listed finding and minimised past failures: run first, on every run."""
     cs = []
@@ -327,12 +348,22 @@ def corpus():
                         {"decls": [["a_", ["Typed", "VStr", 102]]], "bases": [3]}], "cls": 4, "nlate": 1, "precls": 3}
     cs.append(dict(late, ops=[["Set", "ab", 1, "E"], ["Set", "ab", 101], ["Get", "ab"], ["Set", "aa", 101], ["Get", "aa"]],
                    kind="corpus"))
+    # inheritance not along the MRO: K(A, HasStrictTraits) accepts undeclared names; D(L, R) ignores R.x
+    cs.append(dict({"classes": [{"decls": [], "bases": [0]}, {"decls": [], "bases": [3, 1]}], "cls": 4},
+                   ops=[["Set", "ab", 5], ["Get", "ab"], ["Get", "b"]], kind="corpus"))
+    cs.append(dict({"classes": [{"decls": [["ab", ["Typed", "VInt", 7]]], "bases": [0]}, {"decls": [], "bases": [3]},
+                                {"decls": [["ab", ["Typed", "VStr", 102]]], "bases": [3]}, {"decls": [], "bases": [4, 5]}],
+                    "cls": 6}, ops=[["Set", "ab", 101], ["Get", "ab"], ["Set", "ab", 1]], kind="corpus"))
     # two instances of one class share the cache, not the instance traits nor the values
     two = {"classes": [{"decls": [["a_", ["Typed", "VInt", 7]], ["b_", ["ReadOnly"]]], "bases": [1]}], "cls": 3,
            "nlate": 0, "precls": 3}
     cs.append(dict(two, ops=[["Set", "ab", 1, "E"], ["Add", "ab", ["Event"], "E"], ["Set", "bb", 1, "E"], ["Get", "ab"],
                              ["Set", "ab", 101], ["Set", "bb", 2], ["Set", "bb", 3], ["Rem", "ab"], ["Get", "ab"]],
                    kind="corpus"))
+    cs.append(dict({"classes": [{"decls": [["a_", ["Typed", "VInt", 7]]], "bases": [1]}], "cls": 3}, kind="corpus",
+                   ops=[["Add", "ab", ["Event"]], ["Get", "ab", "B"], ["Set", "ab", 3, "B"], ["Get", "ab"], ["Set", "ab", 101],
+                        ["Add", "b", ["Any", 5], "B"], ["Get", "b"], ["Get", "b", "B"], ["Rem", "ab", "B"], ["Rem", "ab"],
+                        ["Get", "ab"], ["Get", "ab", "B"]]))
     hs = {"classes": [{"decls": [["a_", ["Typed", "VInt", 7]]], "bases": [1]}], "cls": 3}
     cs.append(dict(hs, ops=[["Get", "ab"], ["Add", "ab", ["ReadOnly"]], ["Set", "ab", 1], ["Set", "ab", 2], ["Get", "ab"],
                             ["Rem", "ab"], ["Get", "ab"], ["Set", "ab", 101], ["Get", "b"], ["Set", "b", 1]],
@@ -381,6 +412,7 @@ def run(ctx):
         pool = fixed + [gen_hierarchy(rnd, ctx) for _ in range(60 if ctx.tier == "quick" else 600)]
         cases += [random_history(rnd.choice(pool), rnd, ctx, maxlen) for _ in range(nhist)]
         cases += [staged_history(rnd.choice(pool), rnd, ctx, maxlen) for _ in range(nstaged)]
+        cases += [two_instance_history(rnd.choice(pool), rnd, ctx, maxlen) for _ in range(nstaged)]
         ctx.count("hierarchies", len(hiers) + len(pool))
     for c in cases:
         ctx.count("case:" + c.get("kind", "replay"))
